@@ -668,3 +668,36 @@ pub fn wc_rich_items(rng: &mut Rng) -> (Vec<String>, Vec<String>) {
     let goals = vec!["exists<X> { S<X>: Foo }".to_string(), "S<A>: Foo".to_string(), "S<B>: Foo".to_string()];
     (items, goals)
 }
+
+/// Overlapping impls of a marker trait: tables with several answers, some of which are instances of
+/// others (`V<P0>`, `V<A>`, `V<B>`, `W<A>` ..), declaration order random; a second trait defined
+/// through the first.  Returns the program text and a pool of goals with one unknown.
+pub fn overlap_program(rng: &mut Rng) -> (String, Vec<String>) {
+    let pool = ["V<P0>", "V<A>", "V<B>", "W<A>", "W<P0>", "A", "B", "V<V<P0>>", "V<W<P0>>", "W<B>", "P<P0, P0>", "P<A, B>", "P<P0, B>", "P<V<P0>, P0>"];
+    let k = 3 + rng.usize_below(5);
+    let mut text = String::from("struct A {}\nstruct B {}\nstruct V<T> {}\nstruct W<T> {}\nstruct P<T, U> {}\n#[marker] trait M {}\n#[marker] trait N {}\n");
+    for _ in 0..k {
+        let h = pool[rng.usize_below(pool.len())];
+        let b = if h.contains("P0") { "<P0>" } else { "" };
+        let wc = if h.contains("P0") && rng.chance(1, 5) { " where P0: M" } else { "" };
+        text.push_str(&format!("impl{} M for {}{} {{}}\n", b, h, wc));
+    }
+    if rng.chance(1, 2) {
+        text.push_str("impl<P0> N for P0 where P0: M {}\n");
+    } else {
+        text.push_str("impl<P0> N for V<P0> where V<P0>: M {}\n");
+    }
+    let mut goals: Vec<String> = vec![
+        "exists<T> { T: M }".into(),
+        "exists<T> { V<T>: M }".into(),
+        "exists<T> { T: N }".into(),
+        "exists<T> { W<T>: M }".into(),
+        "exists<T, U> { P<T, U>: M }".into(),
+        "exists<T> { P<T, T>: M }".into(),
+    ];
+    for a in (1..goals.len()).rev() {
+        let b = rng.usize_below(a + 1);
+        goals.swap(a, b);
+    }
+    (text, goals)
+}
